@@ -282,6 +282,38 @@ class Fn:
         return out
 
 
+def switch_cases(fn, node):
+    """for each switch of fn from which `node` is reachable: the case labels through which it
+    can be reached without going round through the switch head again.
+    -> list of {"bid", "expr", "labels": [ {c,t} | "default" | "implicit" ], "n_edges"}"""
+    out = []
+    for bid, b in fn.blocks.items():
+        t = b.get("t")
+        if not t or t.get("k") != "switch":
+            continue
+        end = fn.block_end(bid)
+        labs = []
+        n_edges = 0
+        for s in b.get("s", []):
+            if s is None or s < 0 or s not in fn.blocks:
+                continue
+            n_edges += 1
+            first = fn.node(s, 0)
+            r = fn.reach([first], avoid=[end])
+            if node in r:
+                lab = fn.blocks[s].get("lab")
+                if not lab:
+                    labs.append("implicit")
+                else:
+                    if lab.get("default"):
+                        labs.append("default")
+                    for cv in lab.get("case", []):
+                        labs.append(cv)
+        if labs:
+            out.append({"bid": bid, "expr": t.get("c"), "labels": labs, "n_edges": n_edges})
+    return out
+
+
 def line_path(path, limit=40):
     out = []
     last = None
@@ -453,7 +485,7 @@ class Program:
         return out
 
     # --- summaries -----------------------------------------------------------------
-    def may(self, direct_pred, weak=False, stop=None):
+    def may(self, direct_pred, weak=False, stop=None, skip_call=None):
         """set of function keys from which an event satisfying direct_pred(fn, node) is
         reachable through calls.  Returns dict key -> (node, next_fn_or_None) witness edge."""
         wit = {}
@@ -467,6 +499,8 @@ class Program:
                     if fn.key not in wit:
                         wit[fn.key] = (n, None)
             for n in fn.call_nodes():
+                if skip_call is not None and skip_call(fn, n):
+                    continue
                 for g in self.callees(fn, n.ev["x"], weak=weak):
                     rev[g.key].append((fn, n))
         dq = deque(wit.keys())
